@@ -168,6 +168,13 @@ impl<'tcx> D<'tcx> {
     }
 }
 
+pub fn decode_value<'tcx>(tcx: TyCtxt<'tcx>, v: ConstValue, ty: Ty<'tcx>) -> J {
+    let env = ty::TypingEnv::fully_monomorphized();
+    let Ok(ty) = tcx.try_normalize_erasing_regions(env, ty::Unnormalized::new_wip(ty)) else { return J::Null };
+    let mut d = D { tcx, env, budget: 20_000 };
+    d.decode(v, ty, 0)
+}
+
 pub fn dump_consts<'tcx>(tcx: TyCtxt<'tcx>) -> J {
     let env = ty::TypingEnv::fully_monomorphized();
     let mut out: Vec<J> = Vec::new();
